@@ -882,7 +882,8 @@ class ODLParser(PVLParser):
         on numeric values, any others will result in a ValueError.
         """
 
-        if isinstance(value, int) or isinstance(value, float):
+        numeric = (int, float, self.decoder.real_cls)
+        if isinstance(value, numeric) and not isinstance(value, bool):
             return super().parse_units(value, tokens)
 
         else:
